@@ -8,6 +8,7 @@ import (
 	"fmt"
 	"net"
 	"net/netip"
+	"net/url"
 	"regexp"
 	"strings"
 	"testing"
@@ -861,7 +862,15 @@ func genWinbox(t *rapid.T) pcase {
 func genHTTP(t *rapid.T) pcase {
 	method := pick(t, "method", "GET", "POST", "HEAD", "OPTIONS")
 	host := pick(t, "host", "a.example.com", "b.example.com", "other.test")
-	path := pick(t, "path", "/", "/api/v1/x", "/static/a.css", "/apix")
+	// (a target may carry percent-escapes and a query: path filters are about the path it denotes)
+	target := pick(t, "path", "/", "/api/v1/x", "/static/a.css", "/apix", "/api/v1/a%20b", "/api/v1/x?q=1&r=%2F", "/static/%61.css")
+	path := target
+	if i := strings.IndexByte(path, '?'); i >= 0 {
+		path = path[:i]
+	}
+	if dec, err := url.PathUnescape(path); err == nil {
+		path = dec
+	}
 	hdrVal := pick(t, "hdr", "", "yes", "no")
 	h2 := rapid.IntRange(0, 3).Draw(t, "h2") == 0
 	set := map[string]any{}
@@ -871,8 +880,14 @@ func genHTTP(t *rapid.T) pcase {
 		set["host"] = hostF
 	}
 	if rapid.Bool().Draw(t, "pathFilter") {
-		pathF = pick(t, "pathF", []string{"/api/*"}, []string{"/"}, []string{"*.css", "/apix"})
+		pathF = pick(t, "pathF", []string{"/api/*"}, []string{"/"}, []string{"*.css", "/apix"}, []string{"/static/a.css"}, []string{"/api/v1/a b", "/apix"})
 		set["path"] = pathF
+	}
+	if strings.Contains(target, "%") && rapid.Bool().Draw(t, "filterOnDecodedPath") {
+		// the filter names the path the escaped target denotes; both protocol versions are asked
+		pathF = []string{path}
+		set["path"] = pathF
+		h2 = rapid.Bool().Draw(t, "h2ForEscapedTarget")
 	}
 	if rapid.Bool().Draw(t, "methodFilter") {
 		methodF = pick(t, "methodF", []string{"GET"}, []string{"POST", "HEAD"})
@@ -894,14 +909,14 @@ func genHTTP(t *rapid.T) pcase {
 	bad := rapid.IntRange(0, 5).Draw(t, "corrupt")
 	if h2 {
 		scheme := "http"
-		c.in = mx.H2Prior(method, scheme, host, path, hdrs, rapid.IntRange(0, 3).Draw(t, "pre"))
+		c.in = mx.H2Prior(method, scheme, host, target, hdrs, rapid.IntRange(0, 3).Draw(t, "pre"))
 	} else {
 		ver := "1.1"
 		if bad == 1 {
 			ver = pick(t, "badVer", "1.", "x.y", "")
 		}
 		all := append([][2]string{{"Host", host}}, hdrs...)
-		c.in = mx.HTTP1(method, path, ver, all, rapid.Bool().Draw(t, "crlf"), "")
+		c.in = mx.HTTP1(method, target, ver, all, rapid.Bool().Draw(t, "crlf"), "")
 		if bad == 2 {
 			c.in = []byte(strings.Replace(string(c.in), " HTTP/", " HTTX/", 1))
 		}
